@@ -259,6 +259,21 @@ def run(ctx):
         if not sr or not all(ht.dominates(sr[0], b) for b in before):
             r.violate("handle_tag|re-enable-guard", "emission is re-enabled without asking should_stop_removing_element_content()", ht.loc())
 
+    clause_vm_told_before_reenable(r, mir)
+
     ctx.not_decided += ["that the composition of arbitrary operation scripts equals the reference edit (run-time)"]
     return ("API-to-mutation mapping read from the expanded syntax tree (28 token methods cross-checked as siblings and against the documented table, "
             "9 Element operations), serialisation order of mutated tokens, transfer of element-level end-tag edits, and the emission gate for removed content.")
+
+
+def clause_vm_told_before_reenable(r, mir):
+    """handle_tag: the selector VM must have seen this end tag (through the scanner's hint, or through
+    adjust_capture_flags_for_tag_lexeme in lexing mode) before the dispatcher asks whether content removal stops
+    here — otherwise the answer depends on whether an observer keeps the parser in lexing mode."""
+    ht = mir.fn("Dispatcher::handle_tag[LexemeSink]")
+    sr = [bi for bi, t in ht.calls(r"should_stop_removing_element_content$")]
+    told = set(bi for bi, t in ht.calls(r"adjust_capture_flags_for_tag_lexeme$"))
+    told |= set(bi for f2, bi, st in mir.field_writes("Dispatcher", "got_flags_from_hint") if f2 is ht)
+    r.inst("handle_tag|vm-told-before-stop-test", sample={"told_blocks": len(told), "stop_tests": len(sr)})
+    if not sr or not told or any(ht.can_reach_without(0, {b}, told) for b in sr):
+        r.violate("handle_tag|vm-told-before-stop-test", "Dispatcher::handle_tag asks should_stop_removing_element_content() before the selector VM was told about the tag (adjust_capture_flags_for_tag_lexeme / the hint flag): in lexing mode the element is still open at that point, emission is not re-enabled for its end tag, and removed content or the end tag leak or vanish depending on which observers are registered", ht.loc())
